@@ -20,7 +20,8 @@ import common
 import lf_common as L
 
 THEOREMS = ["C14_persistent_map", "C14_get", "C14_update", "C14_add", "C14_discard", "C14_identity_seq",
-            "C14_identity_threads", "C14_pinned_get_refuted", "C14_split_add_refuted", "C14_example"]
+            "C14_identity_threads", "C14_pinned_get_refuted", "C14_split_add_refuted", "C14_example",
+            "C14_threads_example"]
 
 NKEYS = 4
 KINDS = ["sm_small", "sm_props", "cd", "aas"]
@@ -104,6 +105,14 @@ class World:
             if L.doc_name(i) == name:
                 return k
         return 98
+
+    def via(self, obj, x):
+        """commit()/update() reach the document also through a contained element (base.py walks up to
+        the ancestor that has a source): used for every second object that has nested elements"""
+        from basyx.aas import model
+        if x % 2 == 1 and isinstance(obj, model.Submodel) and any(e.id_short == "col" for e in obj.submodel_element):
+            return obj.get_referable("col").get_referable("inner")
+        return obj
 
     def flag(self, op, what, msg):
         if self.fail is None:
@@ -208,7 +217,7 @@ class World:
             obj = self.live[op[1]]
             sk = self.src_key(obj)
             v, c = self.tok(obj), L.canon(obj)
-            obj.commit()
+            self.via(obj, op[1]).commit()
             if sk is None:
                 return [0]
             M[self.ids[sk]] = c
@@ -217,7 +226,7 @@ class World:
             obj = self.live[op[1]]
             sk = self.src_key(obj)
             try:
-                obj.update()
+                self.via(obj, op[1]).update()
             except (FileNotFoundError, KeyError):
                 if sk is not None and self.ids[sk] in M:
                     self.flag("update", "stored-id-missing", "update() of an object whose document exists failed")
@@ -273,32 +282,39 @@ class World:
 # ---------------------------------------------------------------- history generation (on the fly)
 
 def gen_op(rng, w):
+    """next op, drawn against the live state so that most steps are applicable and hit stored ids /
+    bound objects (the unbiased cases - missing ids, unbound objects, dead instances - stay in)"""
     live = sorted(w.live)
     r = rng.random()
     i = rng.randrange(2)
-    k = rng.randrange(NKEYS)
-    if not live or r < 0.10:
-        return ("New", k, rng.randrange(NVARIANTS))
+    stored = [k for k in range(NKEYS) if w.ids[k] in w.M]
+    k = rng.choice(stored) if stored and rng.random() < 0.75 else rng.randrange(NKEYS)
+    if not live or (r < 0.09 and len(live) < 7):
+        return ("New", rng.randrange(NKEYS), rng.randrange(NVARIANTS))
+    bound = [x for x in live if w.live[x].source != ""]
+    unbound = [x for x in live if w.live[x].source == ""]
     x = rng.choice(live)
-    if r < 0.24:
-        return ("Add", i, x)
+    xb = rng.choice(bound) if bound and rng.random() < 0.8 else x
+    xu = rng.choice(unbound) if unbound and rng.random() < 0.7 else x
+    if r < 0.22:
+        return ("Add", i, xu)
     if r < 0.44:
         return ("Get", i, k)
-    if r < 0.48:
+    if r < 0.47:
         return ("Contains", i, k)
-    if r < 0.51:
+    if r < 0.50:
         return ("Len", i)
-    if r < 0.57:
+    if r < 0.56:
         return ("Iter", i)
-    if r < 0.65:
-        return ("Discard", i, x)
-    if r < 0.75:
+    if r < 0.63:
+        return ("Discard", i, xb)
+    if r < 0.73:
         return ("SetVal", x, rng.randrange(NVARIANTS))
     if r < 0.83:
-        return ("Commit", x)
-    if r < 0.90:
-        return ("Update", x)
-    if r < 0.92:
+        return ("Commit", xb)
+    if r < 0.91:
+        return ("Update", xb)
+    if r < 0.93:
         return ("ClearSource", x)
     if r < 0.97:
         return ("Drop", x)
@@ -530,7 +546,7 @@ def run(chk):
         L.rm_scratch(stale)
     chk.theorems("props.C14", THEOREMS, ["theories/props/C14.vo", "theories/model/LocalFileObs.vo"])
     rng = chk.rng
-    nhist, maxlen = (400, 14) if chk.tier == "quick" else (6000, 22)
+    nhist, maxlen = (350, 20) if chk.tier == "quick" else (5000, 28)
     jobs = []
     corpus = os.path.join(common.VERIF, "corpus", "C14")
     replays = []
@@ -539,7 +555,7 @@ def run(chk):
             c = json.load(open(os.path.join(corpus, fn)))
             replays.append(run_history(c["idbase"], ops=c["ops"]))
     for _ in range(nhist):
-        jobs.append((rng.randrange(len(L.IDS)), rng.getrandbits(48), rng.randint(3, maxlen)))
+        jobs.append((rng.randrange(len(L.IDS)), rng.getrandbits(48), rng.randint(6, maxlen)))
     import multiprocessing
     with multiprocessing.get_context("fork").Pool(8) as pool:
         results = replays + pool.map(_hist_job, jobs, chunksize=8)
@@ -621,8 +637,8 @@ def run(chk):
     chk.assumptions = ["sha256 collision freedom", "identifiers of stored objects are not reassigned",
                        "no other process modifies the directory"]
     return chk.finish(level="proof",
-                      rule="seeded histories (3..14/22 steps) over 13 operations, 2 instances (one opened with a trailing "
-                           "slash), 4 identifiers drawn from 8 shapes (path separators, non-ASCII, 300 chars), 4 payload "
+                      rule="seeded histories (6..20/28 steps) over 13 operations, 2 instances (one opened with a trailing "
+                           "slash), 4 identifiers drawn from 16 shapes (path separators, '..', non-ASCII, astral, line breaks, 2000 chars), 4 payload "
                            "classes x 6 contents, generated against the live state so that most steps are applicable; "
                            "threads: every interleaving of the yield points of get/get, get/add, add/add in 5 scenarios; "
                            "non-trivial = at least 3 steps; distinct by op list")
